@@ -111,3 +111,8 @@ Print Assumptions C15_guard_example.
 Theorem C15_d15_outside_guard : ~ strict_no_clash 2026 [49; 48; 58; 48; 48; 32; 97; 109; 32; 112; 109].
 Proof. exact d15_outside_guard. Qed.
 Print Assumptions C15_d15_outside_guard.
+
+(* the guard is computable: strict_clash is what the matcher of F-C15-ampm evaluates (extracted) *)
+Theorem C15_guard_computable : forall cy s, strict_clash cy s = false <-> strict_no_clash cy s.
+Proof. exact strict_clash_iff. Qed.
+Print Assumptions C15_guard_computable.
